@@ -149,6 +149,10 @@ def gen_base_op(cfg, rs, enabled, swarm):
         return {'op': 'softmax_opts', 'kw': gen_softmax_kw(cfg, rs)}
     if k == 'set_cost_spec':
         return {'op': 'set_cost_spec', 'name': other_cost(cfg, rs)}
+    if k == 'observer':
+        # an observer call as an ordinary step of the script (executed by both replicas)
+        return gen_observer(cfg, rs, {'export': 4, 'export_nobn': 1, 'summary': 3, 'str': 1, 'cost': 2, 'get_cost': 1,
+                                      'switch_spec_and_back': 1, 'nas_summary': 1})
     if k == 'train_burst':
         return {'op': 'train_burst', 'n': rs.randint(6, 12), 'which': rs.choice(['net', 'both', 'both']),
                 'lam': rs.choice([0.0, 1e-3]), 'lr': rs.choice([0.01, 0.05])}
